@@ -163,6 +163,12 @@ func c13(c *Ctx) {
 				c.check(q.bypass() == nil, r, "Set:in:"+owner+":only-when-copying-catalog", c.pos(in.Pos()), reason, "catalog loader writes to the store transaction outside the copyToTx branch")
 				continue
 			}
+			if owner == "embedded/sql.(*Engine).CopyCatalogToTx" && w.callee == otxT+"Set" {
+				// the catalog copy entry point: it is handed the store transaction the copy is committed in (no SQLTx exists),
+				// and re-commits views and sequences the same way the loaders re-commit tables, columns, indexes and checks
+				c.okTrivial(r, "Set:in:"+owner, c.pos(in.Pos()), "catalog copy made before value-log truncation (fix C14.6)")
+				continue
+			}
 			c.check(owner == w.wrapper, r, lastSeg(w.callee)+":in:"+owner, c.pos(in.Pos()), "store write issued by the SQLTx wrapper", "SQL code writes to the store transaction outside the SQLTx wrappers, in "+owner)
 		}
 	}
@@ -222,7 +228,9 @@ func c13CatalogCache(c *Ctx, r string) {
 		}
 	}
 	if f := c.mustFn(r, "embedded/sql.(*Engine).tryPopulateCatalogCache"); f != nil {
-		sameVersion := whenCond(true, func(a string) bool { return strings.Contains(a, "cachedCatalogVersion") && strings.Contains(a, "param:openVersion") && strings.Contains(a, " == ") })
+		sameVersion := whenCond(true, func(a string) bool {
+			return strings.Contains(a, "cachedCatalogVersion") && strings.Contains(a, "param:openVersion") && strings.Contains(a, " == ")
+		})
 		q := &pathQ{fn: f, fromEntry: true, to: storeTo("Engine.cachedCatalog"), barrier: sameVersion}
 		c.check(len(sites(f, storeTo("Engine.cachedCatalog"))) > 0 && q.bypass() == nil, r, fnName(f)+":publish-only-if-version-unchanged", c.pos(f.Pos()), "the cache is filled only on the version-equal edge", "a catalog can be published into the cache although a DDL was committed since the transaction opened")
 	}
